@@ -1574,6 +1574,11 @@ class FuncTranslator:
             if isinstance(v.t, TOpt) and isinstance(r, ast.Constant) and r.value is None:
                 s = 'opt_is_none %s' % paren(v.s)
                 return s if isinstance(op, ast.Is) else 'negb (%s)' % s
+            # `a is b` / `a is not b` between two booleans (True and False are singletons: identity is equality)
+            w = self.expr(r, env)
+            if isinstance(v.t, TB) and isinstance(w.t, TB):
+                s = 'Bool.eqb %s %s' % (paren(v.s), paren(w.s))
+                return s if isinstance(op, ast.Is) else 'negb (%s)' % s
             self.fail(node, 'is-comparison')
         pl, pr = self.parts_of(l, env), self.parts_of(r, env)
         if pl is not None and pr is not None and len(pl) == len(pr) and isinstance(op, (ast.Eq, ast.NotEq)):
